@@ -37,7 +37,8 @@ def run(check, patch_text, strip):
         if p.returncode != 0:
             return "does-not-apply", []
         env = dict(os.environ, VERIF_SRC=os.path.join(scratch, "src"),
-                   VERIF_EVIDENCE_DIR=os.path.join(scratch, "evidence"))
+                   VERIF_EVIDENCE_DIR=os.path.join(scratch, "evidence"),
+                   VERIF_REPLAY_DIR=os.path.join(scratch, "replays"))
         p = subprocess.run([os.path.join(ROOT, "bin", "check"), check],
                            env=env, capture_output=True, text=True,
                            timeout=3600)
@@ -65,7 +66,8 @@ def run_git_revert(check, commits):
             if p.returncode != 0:
                 return "does-not-apply", []
         env = dict(os.environ, VERIF_SRC=os.path.join(wt, "src"),
-                   VERIF_EVIDENCE_DIR=os.path.join(wt, "_evidence"))
+                   VERIF_EVIDENCE_DIR=os.path.join(wt, "_evidence"),
+                   VERIF_REPLAY_DIR=os.path.join(wt, "_replays"))
         p = subprocess.run([os.path.join(ROOT, "bin", "check"), check],
                            env=env, capture_output=True, text=True,
                            timeout=3600)
